@@ -232,7 +232,15 @@ impl Scenario {
             };
             // retry until the library's own parser accepts it and it can be made definite
             let mut spec = None;
+            // a second coin on the same descriptor (same keys in two inputs)
+            if !inputs.is_empty() && rng.chance(1, 6) {
+                let first: &InputSpec = &inputs[0];
+                spec = Some(crate::gen::DescSpec { kind: first.kind, text: first.text.clone(), source: "same-descriptor" });
+            }
             for _try in 0..40 {
+                if spec.is_some() {
+                    break;
+                }
                 let s = {
                     let mut g = Gen::new(&mut rng, &mut uni, locks);
                     g.descriptor(kind)
